@@ -154,7 +154,9 @@ theorem inv_stepThread_cas (P : Params) (pre : Store) (c : Cfg) (tid : Nat)
   · -- renewOwn
     split
     · unfold Inv at *; simp only; rw [replay_snoc, h]; rfl
-    · unfold Inv at *; simp only [hrn, if_true]; rw [replay_snoc, h]; rfl
+    · split
+      · unfold Inv at *; simp only [hrn, if_true]; rw [replay_snoc, h]; rfl
+      · unfold Inv at *; simp only; rw [replay_snoc, h]; rfl
   · -- gen
     split
     · simp only [hcas, if_true]
@@ -209,7 +211,8 @@ theorem inv_run_cas (P : Params) (pre : Store) (σ : List Sch) (c : Cfg)
 release-own so far was a second release. -/
 def InvH (c : Cfg) : Prop :=
   (heldReplay c.trace).2 = true ∧
-  ∀ tid k, (c.threads tid).own = some k → (tid, k) ∈ (heldReplay c.trace).1
+  ∀ tid k, (c.threads tid).own = some k →
+    (tid, k) ∈ (heldReplay c.trace).1 ∧ (c.threads tid).hb = true
 
 theorem heldReplay_snoc (tr : List Ev) (e : Ev) : heldReplay (tr ++ [e]) = heldStep (heldReplay tr) e := by
   simp [heldReplay, List.foldl_append]
@@ -217,6 +220,7 @@ theorem heldReplay_snoc (tr : List Ev) (e : Ev) : heldReplay (tr ++ [e]) = heldS
 def plainEv : Ev → Bool
   | .ok _ _ _ => false
   | .relo _ _ _ => false
+  | .dead _ _ _ => false
   | _ => true
 
 theorem heldReplay_plain (tr evs : List Ev) (h : evs.all plainEv = true) :
@@ -230,26 +234,28 @@ theorem heldReplay_plain (tr evs : List Ev) (h : evs.all plainEv = true) :
     cases e <;> simp [plainEv] at h <;> rfl
 
 theorem own_upd (ts : Nat → Thread) (tid : Nat) (t' : Thread)
-    (ho : ∀ k, t'.own = some k → (ts tid).own = some k) :
-    ∀ j k, (upd ts tid t' j).own = some k → (ts j).own = some k := by
+    (ho : ∀ k, t'.own = some k → (ts tid).own = some k ∧ t'.hb = (ts tid).hb) :
+    ∀ j k, (upd ts tid t' j).own = some k →
+      (ts j).own = some k ∧ (upd ts tid t' j).hb = (ts j).hb := by
   intro j k hj
   by_cases e : j = tid
-  · subst e; rw [upd_self] at hj; exact ho k hj
-  · rw [upd_ne _ _ _ _ e] at hj; exact hj
+  · subst e; rw [upd_self] at hj ⊢; exact ho k hj
+  · rw [upd_ne _ _ _ _ e] at hj ⊢; exact ⟨hj, rfl⟩
 
 /-- A step that reports neither a hand-out nor a release-own and gives no thread a new belief. -/
 theorem invH_plain (c c' : Cfg) (evs : List Ev) (ht : c'.trace = c.trace ++ evs)
     (hp : evs.all plainEv = true)
-    (hown : ∀ j k, (c'.threads j).own = some k → (c.threads j).own = some k)
+    (hown : ∀ j k, (c'.threads j).own = some k →
+      (c.threads j).own = some k ∧ (c'.threads j).hb = (c.threads j).hb)
     (h : InvH c) : InvH c' := by
   unfold InvH at *
   rw [ht, heldReplay_plain _ _ hp]
-  exact ⟨h.1, fun j k hj => h.2 j k (hown j k hj)⟩
+  exact ⟨h.1, fun j k hj => ⟨(h.2 j k (hown j k hj).1).1, by rw [(hown j k hj).2]; exact (h.2 j k (hown j k hj).1).2⟩⟩
 
-theorem invH_ok (c : Cfg) (tid kind id : Nat) (t : Thread) (store' : Store) (locks' : List Nat)
-    (h : InvH c) :
+theorem invH_ok (P : Params) (c : Cfg) (tid kind id : Nat) (t : Thread) (store' : Store) (locks' : List Nat)
+    (hhb : P.hbSurvives = true) (h : InvH c) :
     InvH { c with store := store', locks := locks',
-                  threads := upd c.threads tid { finishOp t with own := some (kind, id) },
+                  threads := upd c.threads tid { finishOp t with own := some (kind, id), hb := P.hbSurvives },
                   trace := c.trace ++ [.ok tid kind id] } := by
   unfold InvH at *
   simp only
@@ -258,13 +264,13 @@ theorem invH_ok (c : Cfg) (tid kind id : Nat) (t : Thread) (store' : Store) (loc
   intro j k hj
   by_cases e : j = tid
   · subst e
-    rw [upd_self] at hj
+    rw [upd_self] at hj ⊢
     simp only [Option.some.injEq] at hj
     subst hj
-    simp [heldStep]
-  · rw [upd_ne _ _ _ _ e] at hj
+    exact ⟨by simp [heldStep], hhb⟩
+  · rw [upd_ne _ _ _ _ e] at hj ⊢
     simp only [heldStep]
-    exact List.mem_cons_of_mem _ (h.2 j k hj)
+    exact ⟨List.mem_cons_of_mem _ (h.2 j k hj).1, (h.2 j k hj).2⟩
 
 theorem invH_relo (c : Cfg) (tid : Nat) (k : Key) (t' : Thread) (store' : Store)
     (hk : (c.threads tid).own = some k) (hn : t'.own = none) (h : InvH c) :
@@ -273,17 +279,20 @@ theorem invH_relo (c : Cfg) (tid : Nat) (k : Key) (t' : Thread) (store' : Store)
   unfold InvH at *
   simp only
   rw [heldReplay_snoc]
-  have hm := h.2 tid k hk
+  have hm := (h.2 tid k hk).1
   refine ⟨by simp [heldStep, h.1, hm], ?_⟩
   intro j k' hj
   by_cases e : j = tid
   · subst e; rw [upd_self, hn] at hj; cases hj
-  · rw [upd_ne _ _ _ _ e] at hj
+  · rw [upd_ne _ _ _ _ e] at hj ⊢
     simp only [heldStep]
     have hne : (j, k') ≠ (tid, (k.1, k.2)) := fun x => e (by injection x)
-    exact (List.mem_erase_of_ne hne).mpr (h.2 j k' hj)
+    exact ⟨(List.mem_erase_of_ne hne).mpr (h.2 j k' hj).1, (h.2 j k' hj).2⟩
 
 theorem failThread_own (P : Params) (kind a : Nat) (t : Thread) : (failThread P kind a t).own = t.own := by
+  unfold failThread; split <;> rfl
+
+theorem failThread_hb (P : Params) (kind a : Nat) (t : Thread) : (failThread P kind a t).hb = t.hb := by
   unfold failThread; split <;> rfl
 
 theorem failEvs_plain (P : Params) (tid kind a : Nat) : (failEvs P tid kind a).all plainEv = true := by
@@ -292,45 +301,50 @@ theorem failEvs_plain (P : Params) (tid kind a : Nat) : (failEvs P tid kind a).a
 theorem invH_failCfg (P : Params) (c : Cfg) (tid kind a : Nat) (h : InvH c) :
     InvH (failCfg P c tid kind a (c.threads tid)) :=
   invH_plain c _ (failEvs P tid kind a) rfl (failEvs_plain P tid kind a)
-    (own_upd _ _ _ (fun k hk => by rw [failThread_own] at hk; exact hk)) h
+    (own_upd _ _ _ (fun k hk => ⟨by rw [failThread_own] at hk; exact hk, failThread_hb P kind a _⟩)) h
 
-theorem invH_stepThread (P : Params) (c : Cfg) (tid : Nat) (h : InvH c) : InvH (stepThread P c tid) := by
+theorem invH_stepThread (P : Params) (c : Cfg) (tid : Nat) (hhb : P.hbSurvives = true) (h : InvH c) :
+    InvH (stepThread P c tid) := by
   unfold stepThread
   split
   · exact h
-  · exact invH_plain c _ [_] rfl rfl (own_upd _ _ _ (fun k hk => hk)) h
+  · exact invH_plain c _ [_] rfl rfl (own_upd _ _ _ (fun k hk => ⟨hk, rfl⟩)) h
   · split
-    · exact invH_plain c _ [_] rfl rfl (own_upd _ _ _ (fun k hk => hk)) h
+    · exact invH_plain c _ [_] rfl rfl (own_upd _ _ _ (fun k hk => ⟨hk, rfl⟩)) h
     · rename_i k hk
       exact invH_relo c tid k _ _ hk rfl h
   · split
-    · exact invH_plain c _ [_] rfl rfl (own_upd _ _ _ (fun k hk => hk)) h
-    · exact invH_plain c _ [_] rfl rfl (own_upd _ _ _ (fun k hk => hk)) h
+    · exact invH_plain c _ [_] rfl rfl (own_upd _ _ _ (fun k hk => ⟨hk, rfl⟩)) h
+    · rename_i k hk
+      split
+      · exact invH_plain c _ [_] rfl rfl (own_upd _ _ _ (fun k hk => ⟨hk, rfl⟩)) h
+      · rename_i hdead
+        exact absurd (h.2 tid k hk).2 hdead
   · split
     · split
       · split
         · exact invH_failCfg P c tid _ _ h
-        · exact invH_ok c tid _ _ _ _ _ h
+        · exact invH_ok P c tid _ _ _ _ _ hhb h
       · split
         · exact h
         · split
           · exact invH_failCfg P c tid _ _ h
-          · exact invH_plain c _ [] (by simp) rfl (own_upd _ _ _ (fun k hk => hk)) h
+          · exact invH_plain c _ [] (by simp) rfl (own_upd _ _ _ (fun k hk => ⟨hk, rfl⟩)) h
     · split
       · exact h
-      · exact invH_ok c tid _ _ _ _ _ h
+      · exact invH_ok P c tid _ _ _ _ _ hhb h
 
 theorem invH_stepFault (P : Params) (c : Cfg) (tid : Nat) (h : InvH c) : InvH (stepFault P c tid) := by
   unfold stepFault
   split
   · exact h
-  · exact invH_plain c _ [_] rfl rfl (own_upd _ _ _ (fun k hk => hk)) h
+  · exact invH_plain c _ [_] rfl rfl (own_upd _ _ _ (fun k hk => ⟨hk, rfl⟩)) h
   · split
-    · exact invH_plain c _ [_] rfl rfl (own_upd _ _ _ (fun k hk => hk)) h
+    · exact invH_plain c _ [_] rfl rfl (own_upd _ _ _ (fun k hk => ⟨hk, rfl⟩)) h
     · exact invH_plain c _ [_] rfl rfl (own_upd _ _ _ (fun k hk => by cases hk)) h
   · split
-    · exact invH_plain c _ [_] rfl rfl (own_upd _ _ _ (fun k hk => hk)) h
-    · exact invH_plain c _ [_] rfl rfl (own_upd _ _ _ (fun k hk => hk)) h
+    · exact invH_plain c _ [_] rfl rfl (own_upd _ _ _ (fun k hk => ⟨hk, rfl⟩)) h
+    · exact invH_plain c _ [_] rfl rfl (own_upd _ _ _ (fun k hk => ⟨hk, rfl⟩)) h
   · split
     · split
       · exact invH_failCfg P c tid _ _ h
@@ -398,17 +412,19 @@ theorem held_count (x : Nat × Key) (tr : List Ev) (s : Held × Bool)
     | rnw _ _ _ => exact ⟨hs, by simpa [heldStep] using hc⟩
     | nop _ => exact ⟨hs, by simpa [heldStep] using hc⟩
     | err _ => exact ⟨hs, by simpa [heldStep] using hc⟩
+    | dead _ _ _ => simp [heldStep] at hs
     | tick _ => exact ⟨hs, by simpa [heldStep] using hc⟩
 
-theorem invH_run (P : Params) (σ : List Sch) (c : Cfg) (h : InvH c) : InvH (run P c σ) := by
+theorem invH_run (P : Params) (σ : List Sch) (c : Cfg) (hhb : P.hbSurvives = true) (h : InvH c) :
+    InvH (run P c σ) := by
   induction σ generalizing c with
   | nil => exact h
   | cons s σ ih =>
     apply ih
     cases s with
-    | step tid => exact invH_stepThread P c tid h
+    | step tid => exact invH_stepThread P c tid hhb h
     | fault tid => exact invH_stepFault P c tid h
-    | tick dt => exact invH_plain c _ [_] rfl rfl (fun _ _ hk => hk) h
+    | tick dt => exact invH_plain c _ [_] rfl rfl (fun _ _ hk => ⟨hk, rfl⟩) h
 
 theorem invH_init (pre : Store) (progs : List (Nat × List Op)) : InvH (init pre progs) := by
   refine ⟨rfl, ?_⟩
@@ -478,6 +494,7 @@ theorem still_live (ttl : Nat → Nat) (k : Key) (t0 : Nat) (mid : List Ev) (s :
     | exh t kind => exact ih _ hq.2 ht0 ⟨e, hl, he, hz⟩ (by simpa [specStep, elapsed] using hel) hg
     | nop t => exact ih _ hq.2 ht0 ⟨e, hl, he, hz⟩ (by simpa [specStep, elapsed] using hel) hg
     | err t => exact ih _ hq.2 ht0 ⟨e, hl, he, hz⟩ (by simpa [specStep, elapsed] using hel) hg
+    | dead t _ _ => exact ih _ hq.2 ht0 ⟨e, hl, he, hz⟩ (by simpa [specStep, elapsed] using hel) hg
     | rel t kind id =>
       have hne : k ≠ (kind, id) := by
         have := hq.1; simp [quiet] at this; exact fun x => this x.symm
@@ -502,6 +519,78 @@ theorem still_live (ttl : Nat → Nat) (k : Key) (t0 : Nat) (mid : List Ev) (s :
       · left; simp only [specStep, elapsed] at hel ⊢; omega
       · right; exact hel
 
+
+/-- A marker whose lease is kept up (`leaseOk`) and that nobody releases stays live. -/
+theorem lease_live (ttl : Nat → Nat) (k : Key) (mid : List Ev) (s : SpecSt) (b : Nat)
+    (hq : mid.all (quiet k) = true) (hl : leaseOk k (ttl k.1) b mid = true) (hb : b ≤ ttl k.1) (hpos : 0 < b)
+    (hk : ∃ e, lookup s.store k = some e ∧ (e = 0 ∨ s.now + b ≤ e)) :
+    live (mid.foldl (specStep ttl) s).store (mid.foldl (specStep ttl) s).now k = true := by
+  induction mid generalizing s b with
+  | nil =>
+    obtain ⟨e, hl', he⟩ := hk
+    simp only [List.foldl_nil, live, hl', alive]
+    rcases he with he | he
+    · simp [he]
+    · have : s.now < e := by omega
+      simp [this]
+  | cons ev mid ih =>
+    simp only [List.all_cons, Bool.and_eq_true] at hq
+    simp only [List.foldl_cons]
+    obtain ⟨e, hl', he⟩ := hk
+    have hput : ∀ kind id, k = (kind, id) →
+        ∃ e', lookup (put s.store (kind, id) (expiry s.now (ttl kind))) k = some e' ∧
+          (e' = 0 ∨ s.now + b ≤ e') := by
+      intro kind id hkk
+      subst hkk
+      refine ⟨expiry s.now (ttl kind), lookup_put_self _ _ _, ?_⟩
+      unfold expiry
+      by_cases hz : ttl kind = 0
+      · simp [hz]
+      · simp only [hz, if_false]
+        right; simp only at hb; omega
+    cases ev with
+    | ok t kind id =>
+      simp only [leaseOk] at hl
+      apply ih _ b hq.2 hl hb hpos
+      by_cases hkk : k = (kind, id)
+      · exact hput kind id hkk
+      · exact ⟨e, by simp [specStep, lookup_put_ne _ _ _ _ hkk, hl'], he⟩
+    | rnw t kind id =>
+      simp only [leaseOk] at hl
+      by_cases hkk : k = (kind, id)
+      · have hkk' : (kind, id) = k := hkk.symm
+        simp only [hkk', if_true] at hl
+        apply ih _ (ttl k.1) hq.2 hl (Nat.le_refl _) (by omega)
+        subst hkk
+        refine ⟨expiry s.now (ttl kind), by simp [specStep, lookup_put_self], ?_⟩
+        unfold expiry
+        by_cases hz : ttl kind = 0
+        · simp [hz]
+        · simp only [hz, if_false]; right; simp [specStep]
+      · have hkk' : ¬ (kind, id) = k := fun x => hkk x.symm
+        simp only [hkk', if_false] at hl
+        exact ih _ b hq.2 hl hb hpos ⟨e, by simp [specStep, lookup_put_ne _ _ _ _ hkk, hl'], he⟩
+    | rel t kind id =>
+      simp only [leaseOk] at hl
+      have hne : k ≠ (kind, id) := by
+        have := hq.1; simp [quiet] at this; exact fun x => this x.symm
+      exact ih _ b hq.2 hl hb hpos ⟨e, by simp [specStep, lookup_erase_ne _ _ _ hne, hl'], he⟩
+    | relo t kind id =>
+      simp only [leaseOk] at hl
+      have hne : k ≠ (kind, id) := by
+        have := hq.1; simp [quiet] at this; exact fun x => this x.symm
+      exact ih _ b hq.2 hl hb hpos ⟨e, by simp [specStep, lookup_erase_ne _ _ _ hne, hl'], he⟩
+    | exh t kind => simp only [leaseOk] at hl; exact ih _ b hq.2 hl hb hpos ⟨e, hl', he⟩
+    | nop t => simp only [leaseOk] at hl; exact ih _ b hq.2 hl hb hpos ⟨e, hl', he⟩
+    | err t => simp only [leaseOk] at hl; exact ih _ b hq.2 hl hb hpos ⟨e, hl', he⟩
+    | dead t _ _ => simp only [leaseOk] at hl; exact ih _ b hq.2 hl hb hpos ⟨e, hl', he⟩
+    | tick dt =>
+      simp only [leaseOk, Bool.and_eq_true, decide_eq_true_eq] at hl
+      apply ih _ (b - dt) hq.2 hl.2 (by omega) (by omega)
+      refine ⟨e, by simpa [specStep] using hl', ?_⟩
+      rcases he with he | he
+      · left; exact he
+      · right; simp only [specStep]; omega
 
 /-! ### fallback path -/
 
